@@ -184,6 +184,13 @@ func replayScen(a []string) string {
 
 func main() {
 	RegisterOp("racescen", replayScen) // racescen <seed> <nconn> <ncallers> <ms>
+	RegisterOp("racew", func(a []string) string { // racew <seed> <slow 0|1>: the C12/C13 scenario kinds, detector child only
+		if !raceEnabled {
+			return "n/a outside the detector child"
+		}
+		seed, _ := strconv.ParseInt(a[0], 10, 64)
+		return runWKinds(seed, len(a) > 1 && a[1] == "1")
+	})
 	RegisterOp("sites", func(a []string) string {
 		ss, es, cs, err := listSites(ServiceDir())
 		if err != nil {
@@ -209,7 +216,7 @@ func main() {
 }
 
 func c18(c *Ctx) {
-	c.Rule = "tie (i): the call graph, then one request per distinct (function, struct, field, read/write) selector site of package service on the statically placed structs, every static call / go / closure-sent-on-a-channel edge between its functions and every variable captured by a closure that runs in another goroutine (exhaustive over the current source); the model side derives the goroutine class(es) reaching each function from its root table and judges each site by (class, location, role); tie (ii): scenarios of 6..20 terminals (first messages, duplicate keys, heartbeats, locations, authentication, sub-packaged and unsupported messages, answers / missing answers / duplicate answers, FIN / close / RST) x 2..6 callers (7 command types, with and without timer, 1..100 ms timeouts) on one server built with -race and seeded delays before every channel operation of connection.go; non-trivial = a scenario in which commands were answered AND timed out or were cut by a teardown; distinct = distinct scenario seeds"
+	c.Rule = "tie (i): the call graph, then one request per distinct (function, struct, field, read/write) selector site of package service on the statically placed structs, every static call / go / closure-sent-on-a-channel edge between its functions and every variable captured by a closure that runs in another goroutine (exhaustive over the current source); the model side derives the goroutine class(es) reaching each function from its root table and judges each site by (class, location, role); tie (ii): scenarios of 6..20 terminals (first messages, duplicate keys, heartbeats, locations, authentication, sub-packaged and unsupported messages, answers / missing answers / duplicate answers, FIN / close / RST) x 2..6 callers (7 command types, with and without timer, 1..100 ms timeouts) on one server built with -race and seeded delays before every channel operation of connection.go; every 8th round additionally the 23 (thorough: 26) command / teardown scenario kinds of C12/C13 (lib/conc_writer.go GenW/RunW) run in parallel on the same server; non-trivial = a scenario in which commands were answered AND timed out or were cut by a teardown; distinct = distinct scenario seeds"
 	rng := c.Rng
 	// ---- tie (i): access sites
 	sites, edges, caps, err := listSites(ServiceDir())
@@ -277,6 +284,23 @@ func c18(c *Ctx) {
 			us := []int{0, 60, 300}[(n/perChild)%3]
 			if err := rr.start(c.Seed*1000+int64(n), us, 30); err != nil {
 				panic(err)
+			}
+		}
+		if n%8 == 4 { // the command / teardown scenario kinds of C12/C13 (lib/conc_writer.go), all kinds in parallel
+			wreq := fmt.Sprintf("racew %d %d", rng.Int63n(1<<30), map[bool]int{true: 0, false: 1}[c.Quick()])
+			wans, wst := rr.ch.Ask(wreq, 240*time.Second)
+			rr.collect(c, wreq, seenSig)
+			if wst == "ok" {
+				var ws struct{ WKinds, WViol int }
+				json.Unmarshal([]byte(wans), &ws)
+				tot["wkinds_run"] += int64(ws.WKinds)
+				tot["wkinds_verdicts_of_their_own_oracle"] += int64(ws.WViol)
+				c.Eval(wreq, true)
+			} else if wst == "crash" {
+				fatal++
+				c.Violate(Violation{Signature: "C18/crash", What: "the server under the race detector died", Input: wreq,
+					Observed: panicHead(rr.ch.Stderr()), Required: required + "; and no scenario crashes the server"})
+				continue
 			}
 		}
 		req := fmt.Sprintf("racescen %d %d %d %d", rng.Int63n(1<<40), 6+rng.Intn(15), 2+rng.Intn(5), ms)
